@@ -12,9 +12,16 @@ Small-scope exhaustive input enumeration in three families, all against the real
    wrappers around them.
  L also has the shard LO: a PRESENT optional around every palette value (so around every empty / false / zero payload), bare and
    as a pair field, union branch, list element and map value.
+ K (collection keys): map / set / big_map literal whose key is one component or a pair (thorough: triple) of components from an
+   alphabet of 13 comparable types: scalars, addresses of three kinds (tz1 / tz2 / KT1), option, unions, an unnamed sub-pair, a
+   %field-named and a :type-named sub-pair with named fields, an option of a named pair; components unnamed and %named; values =
+   all keys (ascending by construction: rows list their values in Michelson order), none, the greatest alone, the two extremes.
+   Several rows have Python objects whose Python order is not the Michelson order (addresses, union branch names, None against
+   numbers), others are only hashable in their comparable rendering.
  E (entrypoint helper): every `or` tree with n leaves, every duplicate-free placement of {none, %a, %b} on all nodes, every
-   listed entrypoint x argument through ContractEntrypoint.decode / encode and ParameterSection.to/from_python_object; leaf
-   types in two rotations (int first / option first; the option leaf is absent, present, present with an empty payload).
+   listed entrypoint x argument through ContractEntrypoint.decode / encode, the call proxy ep(obj) / ep(*obj) / ep(**obj) / ep()
+   and ParameterSection.to/from_python_object; 8 leaf types in three rotations, each with a truthy and a FALSY whole argument
+   (0, False, '', [], {}, Some '' ...).
  H (process history, on every shard of S, L and E): a shard is a sequence of conversions in one process.  Every item (a type
    with its values / a parameter type with its calls) is converted (1) in shard order, (2) in the OPPOSITE order by the lane's
    companion process (forked from the worker before its first conversion; it sees the lane's shards in the same sequence, each
@@ -24,10 +31,12 @@ Small-scope exhaustive input enumeration in three families, all against the real
 
 Oracles (the statement; no hand-written expectation):
    T.from_python_object(v.to_python_object()) == v                                   (equality = readable Micheline)
+   the same for the EQUAL object whose dicts list their entries in the opposite order (dict equality ignores order)
    ContractData.encode(decode(m)) == m and decode(encode(o)) == o                      (readable and optimized)
    names: no two fields of one pair/union share a name; same names for every value and for a re-built type
    ContractEntrypoint: decode(a, e) = obj; encoding obj again (through the root entrypoint, and through the entrypoint that
-   obj names when that is a listed one) denotes the same full parameter; decoding that gives obj again;
+   obj names when that is a listed one) denotes the same full parameter; decoding that gives obj again; so does the
+   parameter built by calling the entrypoint proxy with obj in every call form that passes obj;
    ParameterSection.from_python_object(p.to_python_object()) == p.
    H: object(type, value) identical in shard order, in reverse order (companion process), and again after the shard.
 """
@@ -43,17 +52,19 @@ from mc.ref import entrypoints as ref
 ID = 'C12'
 LEVEL = 'exploration'
 RULE = ('S: all tree shapes x {pair,or} per inner node x annotation placements x leaf modes x all values; L: all 2-(3-)leaf '
-        'pairs/unions over a 21-type leaf palette x value combinations (+ wrappers); E: all or-trees x annotation placements x '
-        '(entrypoint, argument); LO: present optional around every palette value in 6 containers; H: every shard also converted in the '
+        'pairs/unions over a 21-type leaf palette x value combinations (+ wrappers); K: map/set/big_map x every 1-2-(3-)component key '
+        'over 13 comparable component types x {unnamed, %named} x key subsets; E: all or-trees x annotation placements x '
+        '(entrypoint, argument) x {decode, encode, call forms}; LO: present optional around every palette value in 6 containers; H: every shard also converted in the '
         'opposite order by a companion process and once more afterwards, objects compared input by input.  '
         'non-trivial = distinct (type, value) whose Python object uses an inferred name (prim_N), '
-        'nests a composite inside a composite, or goes through a contract-level helper with an unannotated union leaf')
+        'nests a composite inside a composite (a composite collection key counts), or goes through a contract-level helper with an unannotated union leaf')
 BOUND = {
     'quick': 'S: n<=3 leaves full alphabet on all nodes (int leaves; unit/mixed leaves with {none,%a,%collider}), n=4 alphabet {none,%a,%int_1} on non-root nodes; '
              'L: 2 leaves x 21 leaf types x 4 naming schemes (none, %x %y, %x %x, :x :y) x <=16 value combinations, LO: option around each of the 21 '
-             'palette types x every value x 6 containers; E: n<=3 leaves, names {none,%a,%b}, 2 leaf rotations; H: every shard in both orders + again',
+             'palette types x every value x 6 containers; K: 13 + 13x13x2 key types x 3 containers (+ a record of map and set) x 4 key subsets; '
+             'E: n<=3 leaves, names {none,%a,%b}, 3 rotations of 8 leaf types x 2-3 arguments, <=4 call forms per route; H: every shard in both orders + again',
     'thorough': 'S: n<=3 full alphabet x 3 leaf modes, n=4 full alphabet (non-root nodes), n=5 alphabet {none,%a,%int_1}; L: 3 leaves over the palette, wrappers '
-                'option/list/map/set, LO as quick; E: n<=4 leaves, 2 leaf rotations; H: every shard in both orders + again',
+                'option/list/map/set, LO as quick; K: as quick + 13^3 three-component keys (5 of the <=27 keys); E: n<=4 leaves, 3 leaf rotations, call forms; H: every shard in both orders + again',
 }
 ASSUMPTIONS = ['equality of values = equality of their readable Micheline rendering (lazy_diff=None, as ContractData does)',
                'Python objects are compared with ==',
@@ -62,7 +73,7 @@ ASSUMPTIONS = ['equality of values = equality of their readable Micheline render
                'interference between conversions of the same shard (all annotation placements of one shape / one palette row) is judged; '
                'without fork() the order comparison is counted as no verdict']
 LEVEL_TEXT = ('exhaustive over every pair/union shape, kind assignment and annotation placement up to the leaf bound, and over '
-              'every pair of leaf types from the palette; each value is converted to its Python object and back, and through '
+              'every pair of leaf types from the palette, and over every one- and two-component collection key from the key alphabet; each value is converted to its Python object and back, and through '
               'the contract-level helpers; every shard is additionally converted in the opposite order by a second process and '
               'once more afterwards, so an object that depends on earlier conversions in the process is seen; nothing is sampled')
 
@@ -392,7 +403,9 @@ def k_key_types(comps, named):
     for n, i in enumerate(comps):
         t = KEYS[i][0]
         ann = list(t.get('annots') or [])
-        if named and len(comps) > 1 and not any(a.startswith('%') for a in ann):
+        if len(comps) == 1:
+            ann = [a for a in ann if not a.startswith('%')]      # the argument of map / set cannot carry a field name
+        elif named and not any(a.startswith('%') for a in ann):
             ann.append('%' + 'pqr'[n])
         nodes.append(annotated(t, *ann))
     vals = [KEYS[i][1] for i in comps]
@@ -485,6 +498,8 @@ def obj_profile(o, depth=0):
         for k, v in o.items():
             if isinstance(k, str) and INFERRED.match(k):
                 inferred = True
+            if isinstance(k, tuple):
+                nested = True                      # composite collection key
             i2, n2, _ = obj_profile(v, depth + 1)
             inferred |= i2
             nested |= n2 or isinstance(v, (dict, tuple, list))
